@@ -29,8 +29,9 @@ def _eng_nontrivial(line, verdict):
     return "; m=-" not in line and "CONFIGERR" not in line
 
 
-_ENG_RULE = ("eng: structured rule sets (1-6 rules + markers, chains up to 4 links, keyed/whole/count targets with "
-             "exclusions over ARGS*/REQUEST_HEADERS*/TX/MATCHED_*, 13 operators with literal and macro arguments, "
+_ENG_RULE = ("eng: structured rule sets (1-6 rules + markers, chains up to 4 links, keyed/regex-keyed/whole/count targets with "
+             "string and regex exclusions over ARGS*/REQUEST_HEADERS*/TX/MATCHED_* (27 key expressions incl. upper case, "
+             "classes, \\D \\W \\b, (?i), alternation, counted repetition), 13 operators with literal and macro arguments, "
              "transformation lists, multiMatch, setvar/ctl actions, all disruptive actions, skip/skipAfter, severity, tags) "
              "rendered to SecLang for the real WAF and sent as JSON to the Lean model; requests with duplicate, mixed-case, "
              "empty and binary names/values; API call sequences in and out of order; three engine modes. Compared: every "
@@ -38,8 +39,12 @@ _ENG_RULE = ("eng: structured rule sets (1-6 rules + markers, chains up to 4 lin
              "collection, HIGHEST_SEVERITY, error-callback ids. Non-trivial = some rule fired; distinct = distinct line. ")
 _ENG_MODELLED = ("modelled: RuleGroup.Eval, Rule.doEvaluate, GetField and the Map/Named/Concat collections, matchVariable, "
                  "MatchRule, Interrupt, Allow, the Process* guards, macro compile/expand, setvar, ctl rule/target removal, "
-                 "deny/drop/redirect/block/pass/allow/skip/skipAfter. Not modelled: regex keys, @rx, XML/JSON selectors, "
-                 "multiphase build, body processors (C03/C10), audit logging (C19).")
+                 "deny/drop/redirect/block/pass/allow/skip/skipAfter; regex keys (selection, exclusion, ctl) through the exact "
+                 "regex model of lean/Coraza/Model/Regex.lean (expression text parsed in Lean, matcher proved against its "
+                 "declarative semantics); configuration-time SecRuleRemoveById/ByTag, SecRuleUpdateTargetById/ByTag, "
+                 "SecRuleUpdateActionById as rewrites of the rule list (buildRules). Not modelled: @rx inside the engine, "
+                 "XML/JSON selectors, multiphase build, body processors (C03/C10), audit logging (C19); regex keys outside the "
+                 "fragment or over non-ASCII names are judged by the monitor only.")
 _ENG_ASSUME = ["Go map iteration order is arbitrary: match data are compared as multisets and the generator only emits "
                "order-dependent actions where the Go order is deterministic",
                "lowercase/uppercase modelled on ASCII input only (cases outside are judged by the monitor alone)"]
@@ -54,7 +59,9 @@ PROPS = {
         "engines": [_eng("match", 25000, 800000), _eng("", 10000, 300000)],
         "nontrivial": _eng_nontrivial, "rule": _ENG_RULE + "Profile `match`: more chains, keyed/whole/count targets, exclusions, negation.",
         "modelled": _ENG_MODELLED, "assumptions": _ENG_ASSUME,
-        "open_statements": ["regex-key selectors and @rx are outside the model (compared by the monitor only)",
+        "open_statements": ["F-C01-2 (open finding): regex keys over case-folded collections are not matched "
+                            "case-insensitively; the C01 monitor compares the outcome with the specification reading of "
+                            "every regex key and reports the difference as KNOWN-FINDING",
                             "C01_link_values is stated for operators without macros (StaticArg); with macros the sequential "
                             "semantics is what the model and the correspondence define"],
     },
@@ -70,13 +77,18 @@ PROPS = {
                             "multi-valued targets)"],
     },
     "C05": {
-        "engines": [{"name": "iso", "quick": 20000, "thorough": 600000, "shards": 8}],
-        "nontrivial": _eng_nontrivial,
+        "engines": [{"name": "iso", "quick": 20000, "thorough": 600000, "shards": 8},
+                    {"name": "auditiso", "quick": 2500, "thorough": 60000, "shards": 8}],
+        "nontrivial": lambda l, v: (" => w=1" in l) or ("; m=-" not in l and "CONFIGERR" not in l and " => w=" not in l),
         "rule": _ENG_RULE + "iso: a predecessor transaction (own request with extra argument names, own call sequence, "
                 "possibly without ProcessLogging; it may match, be interrupted in any phase, switch the engine, remove rules/"
                 "targets by ctl, leave skip/skipAfter/allow pending) runs twice on the WAF and is closed; then the probe runs "
                 "on the same WAF (recycled transaction object) and its full outcome must equal the model's outcome on a fresh "
-                "transaction. SecArgumentsLimit 8 so that argument accounting carried over would show.",
+                "transaction. SecArgumentsLimit 8 so that argument accounting carried over would show. auditiso: one WAF with an "
+                "audit log (Native format); a predecessor triggers a rule (only it sends the trigger argument) that changes the audit "
+                "engine / removes or adds audit-log parts by ctl, runs twice and is closed; then the probe; only the bytes the probe adds "
+                "to the log are observed (record written?, section letters) and compared with the model's answer for the probe on a "
+                "fresh transaction.",
         "modelled": _ENG_MODELLED + " Recycling: newTransaction's assignments and Close's variables.reset() over the modelled fields "
                     "(lean/Coraza/Model/Recycle.lean). Body buffers/readers and audit overrides are not in this model (C10/C19/C20).",
         "assumptions": _ENG_ASSUME + ["sync.Pool returns either a previously closed object or a new one"],
@@ -296,11 +308,20 @@ PROPS = {
         "open_statements": [],
     },
     "C17": {
-        "engines": [_eng("ctl", 25000, 800000), _eng("", 10000, 300000)],
-        "nontrivial": _eng_nontrivial, "rule": _ENG_RULE + "Profile `ctl`: ctl:ruleRemoveById (ids, ranges), ByTag, ruleRemoveTargetById placed at every position.",
+        "engines": [_eng("ctl", 20000, 600000), _eng("dirs", 15000, 500000), _eng("", 6000, 200000)],
+        "nontrivial": _eng_nontrivial,
+        "rule": _ENG_RULE + "Profile `ctl`: ctl:ruleRemoveById (ids, ranges), ByTag, ruleRemoveTargetById (string and regex keys, "
+                "whole variable) placed at every position, and bursts of two or three run-time exclusions aimed at one existing rule "
+                "and the variables it reads. Profile `dirs`: 1-3 configuration-time directives (SecRuleRemoveById/ByTag, "
+                "SecRuleUpdateTargetById/ByTag, SecRuleUpdateActionById) with id lists of 1-3 elements (existing ids, ids without a "
+                "rule, ranges, lo=hi, inverted ranges), positive and negative targets with string and regex keys, action lists "
+                "(disruptive replacement, status, severity, tag, setvar, log flags, skip, skipAfter), placed after all rules or in "
+                "between (a directive acts on the rules before it); NewWAF failing is an observation (CONFIGERR).",
         "modelled": _ENG_MODELLED, "assumptions": _ENG_ASSUME,
-        "open_statements": ["configuration-time directives (SecRuleRemoveBy*, SecRuleUpdateTargetBy*, SecRuleUpdateActionById) are "
-                            "not yet driven through the correspondence; C17_remove_static states their meaning on the model"],
+        "open_statements": ["SecRuleRemoveByMsg / SecRuleUpdateTargetByMsg and ctl:…ByMsg are not in the model (rules carry no msg there)",
+                            "the condition under which an id list is a configuration error (nothing updated and some listed id "
+                            "without a rule) is part of the model and compared by the correspondence; the theorems state the "
+                            "resulting rule list (C17_update_rules) for well-formed lists"],
     },
     "C02": {
         "engines": [_eng("api", 25000, 800000), _eng("", 10000, 300000)],
